@@ -2,7 +2,7 @@
 from harness import asmcheck
 
 WHAT = ['status', 'image', 'addr']
-KINDS = {'zone', 'orgz', 'mkzone', 'org', 'incb'}
+KINDS = {'zone', 'orgz', 'mkzone', 'org', 'incb', 'lzone', 'lorgz', 'lorg'}
 A = {'addr_bits': 5, 'origin': 0, 'page_size': 4, 'pre_zones_op': 'ZonesA', 'pre_zones': [('z1', 8, 11), ('z2', 10, 13)]}
 B = {'addr_bits': 5, 'origin': 4, 'page_size': 4, 'pre_zones_op': 'ZonesB',
      'pre_zones': [('GLOBAL', 4, 15), ('z1', 6, 9), ('z2', 14, 17)]}
@@ -19,6 +19,7 @@ def instances(tier):
     yield 'predefined-global-beyond', dict(TOP, max_len=1, pre_zones_op='GlobalBeyond', pre_zones=[('GLOBAL', 0, 32)]), 'AlphaC05top', None
     yield 'zone-named-Global', dict(A, max_len=4 if tier == 'quick' else 5, pre_zones_op='ZonesCase', pre_zones=[('z4', 20, 25)]), 'AlphaC05case', None
     yield 'include-len5', dict(A, max_len=5 if tier == 'quick' else 6, emit_inv='EmitInc'), 'AlphaC05inc', None
+    yield 'label-in-front-len4', dict(A, max_len=4 if tier == 'quick' else 5), 'AlphaC05lab', None
     yield 'mute-len4', dict(A, max_len=4 if tier == 'quick' else 5), 'AlphaC05mute', None
     if tier == 'quick':
         yield 'A-len3', dict(A, max_len=3), 'AlphaC05', None
